@@ -422,7 +422,7 @@ impl<'a, RK: RadioKind, C: Probe> Driver<'a, RK, C> {
             };
             self.col.event("alarm_b");
             self.found.push(Found {
-                sig: if tainted { format!("C14|lora|after-failed-init|{}|b-{}", fam, kind) } else { format!("C14|lora|b-{}|{}|{}|driver={}", kind, fam, call.api(), before_name) },
+                sig: if tainted { format!("C14|lora|after-failed-init|{}|b-{}", fam, kind) } else { format!("C14|lora|b-{}|{}|driver={}", kind, fam, before_name) },
                 what: "the chip was commanded while asleep without being woken first".into(),
                 detail: mk_detail(json!({"chip_alarm": format!("{:?}", al)})),
             });
@@ -921,7 +921,7 @@ impl<'a> Visitor for RunWan<'a> {
                     Alarm::FifoInSleep => "fifo-access-in-sleep".into(),
                 };
                 col.event("alarm_b");
-                col.violation(&format!("C14|adapter|b-{}|{}|{}", kind, fam, st.api()), "the chip was commanded while asleep without being woken first (through the LoRaWAN adapter)", mk_detail(json!({"chip_alarm": format!("{:?}", al)})));
+                col.violation(&format!("C14|adapter|b-{}|{}", kind, fam), "the chip was commanded while asleep without being woken first (through the LoRaWAN adapter)", mk_detail(json!({"chip_alarm": format!("{:?}", al)})));
             }
             for os in sh.chip.op_starts()[o0..].iter() {
                 col.event(match os.kind {
@@ -1050,6 +1050,15 @@ fn pow(d: u32) -> u64 {
     NA.pow(d)
 }
 
+/// Outcome rotations used for sequences of depth d: all 9, except 3 at the deepest level of the quick tier.
+fn seq_rotations(tier: Tier, d: u32) -> u64 {
+    if tier == Tier::Quick && d >= 4 {
+        3
+    } else {
+        NP
+    }
+}
+
 impl Monitor for C14 {
     fn prop(&self) -> &'static str {
         "C14"
@@ -1060,7 +1069,7 @@ impl Monitor for C14 {
         for (name, d) in [("seq-d1", 1u32), ("seq-d2", 2), ("seq-d3", 3), ("seq-d4", 4), ("seq-d5", 5)] {
             let maxd = tier.pick(4, 5, 2) as u32;
             if d <= maxd {
-                let full = pow(d) * 4 * NP;
+                let full = pow(d) * 4 * seq_rotations(tier, d);
                 v.push(gen(name, if tier == Tier::Sanitizer { full.min(40) } else { full }));
             }
         }
@@ -1078,7 +1087,7 @@ impl Monitor for C14 {
         v
     }
     fn rule(&self) -> String {
-        "seq-dN: every sequence of exactly N calls over {init, sleep(warm), sleep(cold), prepare_for_tx, tx, prepare_for_rx(single|continuous|duty), start_rx, complete_rx, rx, rx_switch_channel, listen, prepare_for_cad, cad, set_lora_sync_word, get_rssi} on a freshly constructed LoRa, x {sx1261,sx1262,sx1276,sx1272} x 9 rotations of the chip outcome profiles {done@0/1/12, timeout@1/12, CRC error, header error, spurious+done@1/6}, followed by the probe suffix prepare_for_tx, tx, prepare_for_rx, rx; fault-dN: the same bases, and for each base with K_spi/K_busy/K_irq bus events one run per position with an SPI fault (transaction lost), a BUSY-wait fault (SX126x) or an IRQ-wait fault there; drop: manual receive flows in which wait_for_irq is dropped after k=0..15 polls, with 7 continuations; wan-fault: Class A and Class C call orders of async_device through LorawanRadio with a fault at every position; wan-drop: Class C flow with rx_continuous dropped after every poll count. Class = (chip, call sequence, outcome rotation, fault kind + call index + command byte).".into()
+        "seq-dN: every sequence of exactly N calls over {init, sleep(warm), sleep(cold), prepare_for_tx, tx, prepare_for_rx(single|continuous|duty), start_rx, complete_rx, rx, rx_switch_channel, listen, prepare_for_cad, cad, set_lora_sync_word, get_rssi} on a freshly constructed LoRa, x {sx1261,sx1262,sx1276,sx1272} x 9 rotations (quick tier, depth 4: 3 rotations) of the chip outcome profiles {done@0/1/12, timeout@1/12, CRC error, header error, spurious+done@1/6}, followed by the probe suffix prepare_for_tx, tx, prepare_for_rx, rx; fault-dN: the same bases, and for each base with K_spi/K_busy/K_irq bus events one run per position with an SPI fault (transaction lost), a BUSY-wait fault (SX126x) or an IRQ-wait fault there; drop: manual receive flows in which wait_for_irq is dropped after k=0..15 polls, with 7 continuations; wan-fault: Class A and Class C call orders of async_device through LorawanRadio with a fault at every position; wan-drop: Class C flow with rx_continuous dropped after every poll count. Class = (chip, call sequence, outcome rotation, fault kind + call index + command byte).".into()
     }
     fn assumptions(&self) -> Vec<String> {
         vec![
@@ -1109,11 +1118,13 @@ impl Monitor for C14 {
 
     fn run_case(&self, g: &str, idx: u64, _rng: &mut Prng, col: &mut Collector) {
         if let Some(d) = g.strip_prefix("seq-d").and_then(|x| x.parse::<u32>().ok()) {
-            let full = pow(d) * 4 * NP;
+            let rot = seq_rotations(col.tier, d);
+            let full = pow(d) * 4 * rot;
             let i = if col.tier == Tier::Sanitizer { idx.wrapping_mul(7919) % full } else { idx };
             let calls = seq_from_index(i % pow(d), d);
             let var = VARS[((i / pow(d)) % 4) as usize];
-            let ovar = (i / (pow(d) * 4)) % NP;
+            // all 9 rotations, or 3 of them spread over the profile list
+            let ovar = if rot == NP { (i / (pow(d) * 4)) % NP } else { ((i / (pow(d) * 4)) % rot) * 3 };
             if unsupported(var, &calls) {
                 return;
             }
